@@ -178,7 +178,7 @@ CancelDuringWait ==
 \* Connect has returned (not because of the context) and is called again on the same Connection: a new backoff controller;
 \* the Connection remembers the last event ID and that the next attempt is a retry (header set, body re-obtained)
 Reconnect ==
-    /\ pc = "done" /\ result.kind \in {"validator", "exhausted"} /\ Len(results) + 1 < MaxConnects
+    /\ pc = "done" /\ result.kind \in {"validator", "exhausted", "nogetbody", "getbodyerr"} /\ Len(results) + 1 < MaxConnects
     /\ results' = Append(results, result) /\ result' = R("") /\ pc' = "reset"
     /\ interval' = EffInitial /\ numRetries' = 0 /\ curErr' = ""
     /\ hist' = Append(hist, [o |-> "reconnect", body |-> <<>>, end |-> "clean"])
